@@ -2,11 +2,13 @@ import WuffsVerif.Common.Line
 import WuffsVerif.Model.WCore.Bounds
 import WuffsVerif.Model.WCore.Stmt
 import WuffsVerif.Model.WCore.NoRec
+import WuffsVerif.Model.WCore.IOTable
 /-! Line driver for C01 (WCore scalar fragment).  Ops:
   tb <type>                     -> lo hi | reject                 (bcheckTypeExpr1)
   bounds <n> <fact>*n <expr>    -> lo:hi per node, pre-order | reject      (bcheckExpr)
   facts <n> <fact>*n <stmt>     -> <m> <fact>*m | reject          (bcheckAssignment, scalar)
   prove <n> <fact>*n <cond>     -> ok | fail | reject             (bcheckAssert without `via`)
+  ioadv <method>                -> <bytes> <consumes> | unknown   (ioMethodAdvances row, from the name)
   norec <n> (<k> <callee>*k)*n  -> ok | cycle                     (checkNoRecursiveFuncs)
   <type> = base min max  (min / max decimal or _)
   <expr> = c <int> | v <name> <type> | u <op> e | b <op> l r | as <type> e | a <op> <n> e*n
@@ -198,6 +200,10 @@ def c01Step (l : List String) : String :=
           | some false => "fail"
         | _ => "bad-op"
       | none => "bad-op"
+  | ["ioadv", name] =>
+    match ioAdvanceSpec name with
+    | some (n, upd) => toString n ++ " " ++ toString upd
+    | none => "unknown"
   | "norec" :: n :: rest =>
     match n.toNat?, rest.mapM String.toNat? with
     | some n, some nums =>
